@@ -542,7 +542,7 @@ enum Mode {
     Alter,
     Cascade,
 }
-const MODES: [Mode; 11] = [
+const MODES: [Mode; 13] = [
     Mode::CleanAdapter,
     Mode::CleanCrate,
     Mode::Literal,
@@ -554,6 +554,9 @@ const MODES: [Mode; 11] = [
     Mode::Rollback,
     Mode::Alter,
     Mode::Cascade,
+    // the two modes in which every mismatch is a violation (and evictions happen) get double weight
+    Mode::CleanAdapter,
+    Mode::CleanCrate,
 ];
 
 struct PQuery {
@@ -579,6 +582,7 @@ enum OpKind {
     Inval(String), // INSERT / UPDATE / DELETE / DROP TABLE target (stmt.table_name)
     Rollback,
     Alter(String),
+    ViewDdl, // CREATE VIEW / DROP VIEW
     Quiet, // any other statement, and texts that do not parse (the adapter returns before touching the cache)
 }
 
@@ -597,9 +601,10 @@ struct Variant {
     rollback: bool,
     alter: bool,
     cascade: bool,
+    viewddl: bool,
 }
-const AS_CODED: Variant = Variant { protect: &[], ext: Ext::Adapter, rollback: false, alter: false, cascade: false };
-const AS_CODED_CRATE: Variant = Variant { protect: &[], ext: Ext::Crate, rollback: false, alter: false, cascade: false };
+const AS_CODED: Variant = Variant { protect: &[], ext: Ext::Adapter, rollback: false, alter: false, cascade: false, viewddl: false };
+const AS_CODED_CRATE: Variant = Variant { protect: &[], ext: Ext::Crate, rollback: false, alter: false, cascade: false, viewddl: false };
 
 struct Replay {
     hit: Vec<bool>,
@@ -721,6 +726,12 @@ fn replay(cap: usize, pool: &[PQuery], ops: &[OpKind], fresh: &[Option<u64>], v:
                     tracked.retain(|s| cache.contains(s));
                 }
             }
+            OpKind::ViewDdl => {
+                if v.viewddl {
+                    cache.clear();
+                    tracked.clear();
+                }
+            }
             OpKind::Quiet => {}
         }
         r.max_size = r.max_size.max(cache.stats().size);
@@ -750,6 +761,7 @@ fn repairs(base: &Variant) -> Vec<(&'static str, Variant)> {
     v.push(("rollback-not-invalidated", Variant { rollback: true, ..*base }));
     v.push(("alter-table-not-invalidated", Variant { alter: true, ..*base }));
     v.push(("fk-cascade-not-invalidated", Variant { cascade: true, ..*base }));
+    v.push(("view-redefinition-not-invalidated", Variant { viewddl: true, ..*base }));
     v
 }
 
@@ -787,7 +799,8 @@ fn q_from_only(r: &mut Rng) -> String {
 fn q_everywhere(r: &mut Rng) -> String {
     let (t, u, w, k) = (pick_t(r), pick_t(r), pick_t(r), r.below(6));
     match r.below(16) {
-        0 => format!("SELECT a FROM {t} WHERE a IN (SELECT a FROM {u})"),
+        // (unqualified `a IN (SELECT a FROM u)` is avoided: the executor answers it differently from run to run)
+        0 => format!("SELECT x.a FROM {t} x WHERE x.a IN (SELECT y.a FROM {u} y)"),
         1 => format!("SELECT a FROM {t} x WHERE EXISTS (SELECT 1 FROM {u} y WHERE y.a = x.a)"),
         2 => format!("SELECT a, (SELECT MAX(b) FROM {u}) FROM {t}"),
         3 => format!("SELECT a FROM {t} GROUP BY a HAVING a > (SELECT MIN(a) FROM {u})"),
@@ -808,10 +821,11 @@ fn q_everywhere(r: &mut Rng) -> String {
 
 fn q_window(r: &mut Rng) -> String {
     let (t, u) = (pick_t(r), pick_t(r));
+    // (sub-queries whose value moves with almost every write to `u`)
     match r.below(3) {
-        0 => format!("SELECT a, SUM((SELECT MAX(b) FROM {u})) OVER () FROM {t}"),
-        1 => format!("SELECT a, SUM(a) OVER (ORDER BY (SELECT MAX(b) FROM {u})) FROM {t}"),
-        _ => format!("SELECT a, COUNT(*) OVER (PARTITION BY (SELECT COUNT(*) FROM {u})) FROM {t}"),
+        0 => format!("SELECT a, SUM((SELECT COUNT(*) FROM {u})) OVER () FROM {t}"),
+        1 => format!("SELECT a, SUM(a) OVER (ORDER BY (SELECT SUM(b) FROM {u})) + (SELECT 0) FROM {t}"),
+        _ => format!("SELECT a, COUNT(*) OVER (PARTITION BY (SELECT COUNT(*) FROM {u})) + MAX((SELECT SUM(b) FROM {u})) OVER () FROM {t}"),
     }
 }
 
@@ -893,10 +907,20 @@ fn pool_bases(mode: Mode, r: &mut Rng) -> Vec<String> {
     let mut v = Vec::new();
     let n = 5 + r.below(4);
     match mode {
-        Mode::CleanAdapter | Mode::Rollback | Mode::Alter => {
+        Mode::CleanAdapter | Mode::Rollback => {
             for _ in 0..n {
                 v.push(q_from_only(r));
             }
+        }
+        Mode::Alter => {
+            for _ in 0..3 {
+                v.push(q_from_only(r));
+            }
+            // ADD COLUMN changes what the wildcard expands to
+            for t in TABLES {
+                v.push(format!("SELECT * FROM {t}"));
+            }
+            v.push(format!("SELECT x.*, y.a FROM {} x JOIN {} y ON x.a = y.a", pick_t(r), pick_t(r)));
         }
         Mode::CleanCrate | Mode::FromOnly => {
             for _ in 0..n {
@@ -960,7 +984,7 @@ fn pool_bases(mode: Mode, r: &mut Rng) -> Vec<String> {
             for _ in 0..2 {
                 v.push(q_from_only(r));
             }
-            for _ in 0..3 {
+            for _ in 0..5 {
                 v.push(q_window(r));
             }
         }
@@ -1025,6 +1049,18 @@ fn random_write(mode: Mode, r: &mut Rng, dropped: &mut HashSet<&'static str>, in
             format!("INSERT INTO {tn} VALUES ({k}, {k2}, '{}')", lit(r))
         }
     };
+    // the statement kinds a mode is about are drawn more often in that mode
+    if mode == Mode::Alter && !*in_txn && r.chance(1, 4) {
+        return vec![format!("ALTER TABLE {tn} ADD COLUMN z{} INT", r.below(1000))];
+    }
+    if mode == Mode::Rollback && r.chance(1, 4) {
+        if *in_txn {
+            *in_txn = false;
+            return vec![if r.chance(3, 4) { "ROLLBACK".into() } else { "COMMIT".into() }];
+        }
+        *in_txn = true;
+        return vec!["BEGIN".into(), ins(r)];
+    }
     match r.below(20) {
         0..=6 => vec![ins(r)],
         7..=10 => vec![format!("UPDATE {tn} SET b = b + 1 WHERE a = {k}")],
@@ -1099,8 +1135,8 @@ fn gen_history(mode: Mode, r: &mut Rng, pool_len: usize, thorough: bool) -> (His
             for i in 1..=4 {
                 s.push(o(&format!("INSERT INTO pa VALUES ({i}, {})", r.below(9))));
             }
-            for i in 1..=6 {
-                s.push(o(&format!("INSERT INTO ch VALUES ({}, {})", 10 * i, 1 + r.below(4))));
+            for i in 1..=8 {
+                s.push(o(&format!("INSERT INTO ch VALUES ({}, {})", 10 * i, 1 + (i - 1) % 4)));
             }
             w.children.insert("PA".into(), vec!["CH".into()]);
         }
@@ -1111,7 +1147,7 @@ fn gen_history(mode: Mode, r: &mut Rng, pool_len: usize, thorough: bool) -> (His
     let small = [1usize, 2, 3, 4, 6, 10000][r.below(6) as usize];
     let cap = if mode == Mode::CleanAdapter { small } else { 10000 };
     let cap_crate = if matches!(mode, Mode::CleanAdapter | Mode::CleanCrate) { small } else { 10000 };
-    let n = if thorough { 45 + r.below(30) } else { 28 + r.below(14) } as usize;
+    let n = if thorough { 40 + r.below(20) } else { 28 + r.below(14) } as usize;
     let mut dropped: HashSet<&'static str> = HashSet::new();
     let mut wide: HashMap<&'static str, bool> = HashMap::new();
     let mut in_txn = false;
@@ -1126,8 +1162,9 @@ fn gen_history(mode: Mode, r: &mut Rng, pool_len: usize, thorough: bool) -> (His
                 recent.remove(0);
             }
             s.push(Stmt::Read(qi));
-        } else if mode == Mode::Cascade && r.chance(1, 2) {
-            match r.below(3) {
+        } else if mode == Mode::Cascade && r.chance(2, 3) {
+            match r.below(4) {
+                3 => s.push(o(&format!("DELETE FROM pa WHERE id = {}", 1 + r.below(4)))),
                 0 => s.push(o(&format!("DELETE FROM pa WHERE id = {}", 1 + r.below(4)))),
                 1 => {
                     nid += 1;
@@ -1164,6 +1201,7 @@ fn op_kind(st: &Stmt, text: &str) -> OpKind {
             Ok(Statement::Delete(s)) => OpKind::Inval(s.table_name.clone()),
             Ok(Statement::DropTable(s)) => OpKind::Inval(s.table_name.clone()),
             Ok(Statement::Rollback(_)) => OpKind::Rollback,
+            Ok(Statement::CreateView(_)) | Ok(Statement::DropView(_)) => OpKind::ViewDdl,
             Ok(Statement::AlterTable(_)) => {
                 // "ALTER TABLE <name> ..." (only generated in that shape)
                 OpKind::Alter(text.split_whitespace().nth(2).unwrap_or("").to_uppercase())
@@ -1305,25 +1343,53 @@ fn random_text(r: &mut Rng) -> String {
 struct HistResult {
     a: Vec<Out>,
     b: Vec<Out>,
+    /// statements whose uncached execution is not a function of the database state: re-executing the
+    /// same SELECT on the uncached adapter gave another answer (an executor defect, not the cache's)
+    unstable: Vec<bool>,
 }
 
-fn run_real(cap: usize, texts: &[String]) -> HistResult {
-    // a fresh thread per history: the adapter's thread-local database pool starts empty, so both adapters
-    // get a brand-new Database
+/// the adapter reads its configuration from the process environment in `new()`: constructions are serialised
+static ADAPTER_SETUP: std::sync::Mutex<()> = std::sync::Mutex::new(());
+
+/// the histories of one group run concurrently, each on its own thread: a fresh thread also means that the
+/// adapter's thread-local database pool starts empty, so both adapters get a brand-new Database
+fn spawn_real(cap: usize, texts: &[String], is_read: &[bool]) -> std::thread::JoinHandle<HistResult> {
     let texts = texts.to_vec();
+    let is_read = is_read.to_vec();
     std::thread::spawn(move || {
-        let mut a = RealAdapter::new(true, cap);
-        let mut b = RealAdapter::new(false, cap);
-        let mut ra = Vec::new();
-        let mut rb = Vec::new();
-        for t in &texts {
-            ra.push(a.run(t));
-            rb.push(b.run(t));
+        let (mut a, mut b) = {
+            let _g = ADAPTER_SETUP.lock().unwrap_or_else(|e| e.into_inner());
+            (RealAdapter::new(true, cap), RealAdapter::new(false, cap))
+        };
+        let mut res = HistResult { a: vec![], b: vec![], unstable: vec![] };
+        let mut rechecks = 0;
+        for (i, t) in texts.iter().enumerate() {
+            let oa = a.run(t);
+            let ob = b.run(t);
+            let mut unstable = false;
+            if oa != ob && is_read[i] && rechecks < 6 {
+                // (bounded: view queries are expensive, and stale hits repeat)
+                rechecks += 1;
+                for _ in 0..3 {
+                    if b.run(t) != ob {
+                        unstable = true;
+                    }
+                }
+            }
+            res.a.push(oa);
+            res.b.push(ob);
+            res.unstable.push(unstable);
         }
-        HistResult { a: ra, b: rb }
+        res
     })
-    .join()
-    .expect("harness: adapter thread")
+}
+
+struct Prepared {
+    hist: History,
+    world: World,
+    texts: Vec<String>,
+    kinds: Vec<OpKind>,
+    handle: std::thread::JoinHandle<HistResult>,
 }
 
 fn main() {
@@ -1354,18 +1420,21 @@ fn main() {
         let mut r = Rng::new(args.seed, "c25/sig");
         let nsig = if args.thorough { 1500 } else { 400 };
         let mut rows = Vec::new();
+        let mut nq_rows = Vec::new();
         for i in 0..nsig {
             let t = random_text(&mut r);
             let h = QuerySignature::from_sql(&t).hash();
             rows.push(format!("({}, {}, {})", 500_000 + i, cs(&t), h));
+            nq_rows.push(format!("({}, {}, {})", 600_000 + i, cs(&t), cs(&normalize_q(&t, &[Reg::SQ, Reg::DQ, Reg::BQ, Reg::Cmt]))));
             log.log(500_000 + i, json!({"kind": "signature", "text": t, "hash": h}));
             sum.evaluations += 1;
             sum.model_cases += 1;
         }
         sum.count_n("signature_texts", nsig);
         let _ = write!(sh0, "Definition sigs : list (Z * list Z * Z) := [\n{}].\n", rows.join(";\n"));
+        let _ = write!(sh0, "Definition nqs : list (Z * list Z * list Z) := [\n{}].\n", nq_rows.join(";\n"));
     } else {
-        sh0.push_str("Definition chars : list (Z * Z * bool * list Z) := [].\nDefinition sigs : list (Z * list Z * Z) := [].\n");
+        sh0.push_str("Definition chars : list (Z * Z * bool * list Z) := [].\nDefinition sigs : list (Z * list Z * Z) := [].\nDefinition nqs : list (Z * list Z * list Z) := [].\n");
     }
     {
         let ntr = if args.thorough { 600 } else { 150 };
@@ -1380,19 +1449,20 @@ fn main() {
         }
         let _ = write!(sh0, "Definition traces : list (Z * Z * list cop) := [\n{}].\n", rows.join(";\n"));
     }
-    sh0.push_str("Eval vm_compute in (c25_char_mism chars ++ c25_sig_mism sigs ++ c25_trace_mism traces).\n");
+    sh0.push_str("Eval vm_compute in (c25_char_mism chars ++ c25_sig_mism sigs ++ c25_nq_mism nqs ++ c25_trace_mism traces).\n");
     write_shard(&args, 0, &sh0);
 
     // ---- groups of histories ----
-    let groups: u64 = if args.thorough { 110 } else { 22 };
-    let per_group: u64 = if args.thorough { 16 } else { 8 };
-    let groups_per_shard = if args.thorough { 8 } else { 2 };
+    let groups: u64 = if args.thorough { 78 } else { 26 };
+    let per_group: u64 = if args.thorough { 12 } else { 7 };
+    let groups_per_shard = if args.thorough { 6 } else { 2 };
     let mut shard_text = String::new();
     let mut shard_calls: Vec<String> = Vec::new();
     let mut shard_no = 1;
+    let t_all = std::time::Instant::now();
     let header = "From Coq Require Import List ZArith.\nFrom VibeSQL Require Import Lex.Normalize Store.Cache Store.CacheTables Run.C25Run.\nImport ListNotations.\nOpen Scope Z_scope.\n";
     for g in 0..groups {
-        let mode = MODES[(g % 11) as usize];
+        let mode = MODES[(g % 13) as usize];
         let mut r = Rng::new(args.seed, &format!("c25/group/{}", g));
         // pool
         let mut pool: Vec<PQuery> = Vec::new();
@@ -1434,18 +1504,34 @@ fn main() {
             sum.model_cases += 1;
         }
         let mut hist_rows: Vec<String> = Vec::new();
+        let mut prepared: Vec<Option<Prepared>> = Vec::new();
         for h in 0..per_group {
             let hidx = g * per_group + h;
             let id_a = 3_000_000 + hidx * 4;
-            let id_c = id_a + 1;
             let mut hr = Rng::new(args.seed, &format!("c25/hist/{}", hidx));
-            if !(want(id_a) || want(id_c)) {
+            if !(want(id_a) || want(id_a + 1)) {
+                prepared.push(None);
                 continue;
             }
             let (hist, world) = gen_history(mode, &mut hr, pool.len(), args.thorough);
             let texts: Vec<String> = hist.stmts.iter().map(|s| match s { Stmt::Read(qi) => pool[*qi].text.clone(), Stmt::Other(t) => t.clone() }).collect();
             let kinds: Vec<OpKind> = hist.stmts.iter().zip(texts.iter()).map(|(s, t)| op_kind(s, t)).collect();
-            let real = run_real(hist.cap, &texts);
+            let reads: Vec<bool> = kinds.iter().map(|k| matches!(k, OpKind::Read(_))).collect();
+            let handle = spawn_real(hist.cap, &texts, &reads);
+            prepared.push(Some(Prepared { hist, world, texts, kinds, handle }));
+        }
+        for h in 0..per_group {
+            let hidx = g * per_group + h;
+            let id_a = 3_000_000 + hidx * 4;
+            let id_c = id_a + 1;
+            let Some(Prepared { hist, world, texts, kinds, handle }) = prepared[h as usize].take() else {
+                continue;
+            };
+            let real = handle.join().expect("harness: adapter thread");
+            let stable = !real.unstable.iter().any(|x| *x);
+            if !stable {
+                sum.count("histories_dropped_from_adapter_oracle_executor_unstable");
+            }
             // intern the uncached outputs
             let mut intern: HashMap<Out, u64> = HashMap::new();
             let mut by_id: Vec<Out> = Vec::new();
@@ -1480,7 +1566,7 @@ fn main() {
                 sum.evaluations += 1;
                 let is_read = matches!(kinds[i], OpKind::Read(_));
                 sum.count(if is_read { "stmt_select" } else { "stmt_other" });
-                if real.a[i] == real.b[i] {
+                if real.a[i] == real.b[i] || !stable {
                     continue;
                 }
                 let mut slug = "result-mismatch".to_string();
@@ -1501,7 +1587,7 @@ fn main() {
                 sum.finding(&slug, id_a, format!("real adapter, statement {}: {:?} returns {} with the cache and {} without", i, texts[i], real.a[i].short(), real.b[i].short()), case_json(i));
             }
             // the replica must agree with the real adapter wherever eviction cannot interfere
-            if no_eviction {
+            if no_eviction && stable {
                 for i in 0..texts.len() {
                     if matches!(kinds[i], OpKind::Read(_)) && out_of(rep_a.ret[i]) != real.a[i] && real.a[i] == real.b[i] {
                         sum.finding("replica-diverges-from-adapter", id_a, format!("statement {}: {:?}: replica returns {} but the real adapter {}", i, texts[i], out_of(rep_a.ret[i]).short(), real.a[i].short()), case_json(i));
@@ -1585,6 +1671,7 @@ fn main() {
         }
     }
     let _: BTreeMap<String, u64> = BTreeMap::new();
+    sum.notes.push(format!("wall time of the history part: {:.1}s (the histories of a group run concurrently; practically all of it is statement execution inside the real adapters)", t_all.elapsed().as_secs_f64()));
     sum.notes.push("cached vs uncached runs go through the real tests/sqllogictest/db_adapter.rs (VibeSqlDB::run) compiled into the harness; hit/miss/victims are observed on a replica of its protocol around the real QueryResultCache, checked against the real adapter's answers on every history without evictions".into());
     sum.write(&args);
 }
